@@ -71,7 +71,7 @@ pub struct WorkerArgs {
 
 pub fn set_limits() {
     unsafe {
-        let lim = libc::rlimit { rlim_cur: 4 << 30, rlim_max: 4 << 30 };
+        let lim = libc::rlimit { rlim_cur: 1 << 30, rlim_max: 1 << 30 };
         libc::setrlimit(libc::RLIMIT_AS, &lim);
         let core = libc::rlimit { rlim_cur: 0, rlim_max: 0 };
         libc::setrlimit(libc::RLIMIT_CORE, &core);
